@@ -634,6 +634,41 @@ func (m c04) requestCase(rc reqCodec, r *core.Rand, i int) {
 			} else {
 				c.Class("decode_again_after_caller_edit_ok")
 			}
+			// the SAME object, with and without a Marshal between the two decodes of the one buffer, and the buffer
+			// restored and decoded a third time
+			for _, marshalBetween := range []bool{true, false} {
+				buf := clone(enc)
+				o, canon := rc.mk()
+				o.Unmarshal(buf)
+				if marshalBetween {
+					o.Marshal()
+				}
+				copy(buf, enc2)
+				ok2 := o.Unmarshal(buf) && bytes.Equal(canon(), enc2) && bytes.Equal(o.Marshal(), enc2)
+				copy(buf, enc)
+				ok3 := o.Unmarshal(buf) && bytes.Equal(canon(), enc) && bytes.Equal(o.Marshal(), enc)
+				if !ok2 || !ok3 {
+					m.bad(rc.name+":roundtrip-differs:buffer-refilled-same-object", "an object that decodes its receive buffer again after the buffer was refilled in place does not hold the value now in the buffer",
+						map[string]any{"codec": rc.name, "first": core.Hex(enc), "second": core.Hex(enc2), "marshal_between": marshalBetween, "second_ok": ok2, "third_ok": ok3})
+					break
+				}
+				c.Class("same_object_decodes_refilled_buffer_ok")
+			}
+			// a retransmission: the object decoded enc from the receive buffer and forwarded it (Marshal); the buffer was
+			// reused for enc2; enc arrives again in other storage and is decoded by the same object
+			{
+				buf := clone(enc)
+				o, canon := rc.mk()
+				o.Unmarshal(buf)
+				o.Marshal()
+				copy(buf, enc2)
+				if !o.Unmarshal(clone(enc)) || !bytes.Equal(canon(), enc) || !bytes.Equal(o.Marshal(), enc) {
+					m.bad(rc.name+":roundtrip-differs:retransmission-after-buffer-reuse", "an object that decodes a message again, after the buffer it first decoded it from was reused, does not hold that message",
+						map[string]any{"codec": rc.name, "message": core.Hex(enc), "buffer_reused_for": core.Hex(enc2)})
+				} else {
+					c.Class("retransmission_after_buffer_reuse_ok")
+				}
+			}
 		}
 		// (5) the object held a value, then REJECTED some bytes (truncated / garbage), then decodes enc: the value is enc's
 		for _, junk := range [][]byte{prev[:len(prev)/2], r.Bytes(7), {}, append(clone(prev), 1, 2, 3)} {
